@@ -132,7 +132,9 @@ Init == /\ owner \in FocusOwners /\ cown \in CompOwners /\ decl \in Modes
 SetMode == \E text \in ModeTexts, via \in {"call", "file"}, n \in 0..MaxCompiles, rep \in 1..ModeWeight :
               /\ text # st.mtext
               /\ Do(Edit("mode", text, via, <<0, 0>>, "", NoCall), [Stale(st) EXCEPT !.mtext = text], n)
-SetBoundary == \E b \in Pairs(ES), ct \in Conts, via \in {"call", "file", "factor", "factor_file"}, n \in 0..MaxCompiles :
+\* (the route is part of the exported walk only, not of the state: the exhaustive configs need one route per kind of bounds object)
+BoundaryVias == IF Export THEN {"call", "file", "factor", "factor_file"} ELSE {"call", "factor"}
+SetBoundary == \E b \in Pairs(ES), ct \in Conts, via \in BoundaryVias, n \in 0..MaxCompiles :
               /\ via = "file" => ct = "list"              \* the parser hands a list to set_boundary
               /\ via \in {"factor", "factor_file"} => ct = "tuple"       \* set_factor_boundary makes the bounds object itself (a tuple)
               /\ Do(Edit("bounds", "", via, b, ct, NoCall), [Stale(st) EXCEPT !.bounds = b, !.cont = ct, !.depth = 0], n)
